@@ -8,6 +8,7 @@ import (
 
 	"sbpfcheck/flow"
 	"sbpfcheck/load"
+	"sbpfcheck/origin"
 )
 
 // pureFailCallee lists the callees allowed on a failure edge before the
@@ -182,4 +183,20 @@ func checkAssembleGetInfoFirst(e *Env, p *load.Program, rule string) {
 		r.Check(!before, rule, "Policy.Assemble/group-after-GetInfo", p.Pos(c.Pos()), "no group is compiled before the architecture lookup",
 			"a group is compiled on a path that reaches the architecture lookup afterwards")
 	}
+}
+
+// originCalls: the origin expression contains a call to f.
+func originCalls(o *origin.O, f *ssa.Function) bool {
+	if o == nil || f == nil {
+		return false
+	}
+	if o.Kind == origin.KCall && o.Callee == f {
+		return true
+	}
+	for _, a := range o.Args {
+		if originCalls(a, f) {
+			return true
+		}
+	}
+	return false
 }
